@@ -79,7 +79,7 @@ def run(ctx):
     if ctx.quick:
         with ThreadPoolExecutor(max_workers=2) as ex:
             f1, f2 = ex.submit(model_check, 2), ex.submit(statistics)
-            recs = abigen.gen_pool(ctx)
+            recs = abigen.gen_pool(ctx, quick_parts=4)
             f1.result()
             f2.result()
     else:
@@ -90,7 +90,7 @@ def run(ctx):
             stats["mutant_" + mname] = "counterexample" if r.violated else "NOT DETECTED"
             if not r.violated:
                 raise ToolError("binding failure: classification mutant %s passes the model check" % mname)
-        recs = abigen.gen_pool(ctx)
+        recs = abigen.gen_pool(ctx, quick_parts=4)
     ncls = {"trivial_enc": sum(1 for r in recs if r["cls"]["te"]), "trivial_dec": sum(1 for r in recs if r["cls"]["td"]),
             "memid_eq": sum(1 for r in recs if r["cls"]["ideq"]), "memid_eq_not_trivial_enc": sum(1 for r in recs if r["cls"]["ideq"] and not r["cls"]["te"])}
     if ncls["trivial_enc"] == 0 or ncls["trivial_dec"] == 0:
@@ -124,7 +124,7 @@ def run(ctx):
         "traces_validated_against_impl": validated,
         "type_trees_in_pool": len(recs), "pool_classification": ncls, "observations": kinds, "invalid_decodes": inv_kinds,
         "packages": len(pkgs), "build_or_run_failures": len(failures), "truncated_buffers_not_rejected": ntrunc,
-        "pool": {"tlc_seed": 9, "slice": ("VERIF_SEED mod 16 = %d of the depth<=1 trees + named nestings" % (ctx.seed % 16)) if ctx.quick else "all"},
+        "pool": {"tlc_seed": 9, "slice": ("VERIF_SEED mod 4 = %d of the depth<=1 trees + named nestings" % (ctx.seed % 4)) if ctx.quick else "all"},
         "constants": {"model_cfgs": cfgs}, "model_statistics_and_mutants": stats, "binding_selftest": selftest,
         "samples": [{k: sample.get(k) for k in ("id", "t", "kind", "bytes", "len", "logs", "out")}] if sample else [],
     }, assumptions=[
